@@ -1247,6 +1247,8 @@ def run(ctx):
     r18d(ctx)
     from .round12 import r12t
     r12t(ctx)
+    from .round12 import r12u
+    r12u(ctx)
 
 
 from ..selftest import Seed, unparse_seed  # noqa: E402
